@@ -84,3 +84,26 @@ func DecodeGuarded(data []byte) (int, error) {
 	shift := uint(data[6] & 7)
 	return cols + len(buf) + 1<<shift, nil
 }
+
+func segment(data []byte) []byte {
+	if len(data) < 2 {
+		return nil
+	}
+	n := int(data[0])
+	if n > len(data)-1 {
+		n = len(data) - 1
+	}
+	return data[1 : 1+n]
+}
+
+// DecodeSegment indexes a stream segment with constants: SLICE-CONST controls.
+func DecodeSegment(data []byte) (int, error) {
+	seg := segment(data)
+	a := int(seg[3]) // SLICE-CONST: violated (no length test of seg dominates)
+	other := segment(data)
+	if len(other) < 6 {
+		return 0, errBad
+	}
+	b := int(other[5]) // SLICE-CONST: discharged
+	return a + b, nil
+}
